@@ -8,7 +8,8 @@
    One Exec:   Has? -> Origin -> (Rep d)* in dependency order -> Put.
    Every request is one action whose parameter r is the environment's answer:
      200, 202 (blob still being fetched by the local origin: poll again), 404, other 4xx,
-     5xx, NetErr (0).
+     5xx, NetErr (0: request received, connection dropped, nothing done),
+     Lost (1: the request was carried out but the connection dropped before the reply).
    World state: remoteTag (the remote index holds the tag), remoteBlobs (blobs present in
    the remote origin cluster; a 200 answer of a local origin to Rep(d) means exactly that).
 
@@ -21,6 +22,7 @@ CONSTANTS DepSeqs,      \* dependency lists a task may carry (sequences of blob 
           MaxPolls,     \* bound on consecutive 202 answers (model checking only)
           MaxFaults     \* bound on non-natural answers (model checking only)
 NetErr == 0
+Lost == 1
 Err5xx == {500, 502, 503, 504}
 Err4xx == {400, 403, 404, 409}
 
@@ -31,16 +33,15 @@ VARIABLES remoteTag, remoteBlobs,
           di, oi, polls,
           confirmed,   \* dependencies whose replication was confirmed (200) in the current Exec
           putMissing,  \* dependencies not confirmed when the last Put was issued
-          execs,       \* completed executions
           taskDone,    \* the last execution succeeded: the retry loop ends
           faults
-vars == <<remoteTag, remoteBlobs, deps, no, pc, di, oi, polls, confirmed, putMissing, execs, taskDone, faults>>
+vars == <<remoteTag, remoteBlobs, deps, no, pc, di, oi, polls, confirmed, putMissing, taskDone, faults>>
 
 Range(s) == {s[i] : i \in 1..Len(s)}
 DepSet == Range(deps)
 
 Init == /\ remoteTag = FALSE /\ remoteBlobs = {} /\ deps = <<>> /\ no = 0 /\ pc = "none"
-        /\ di = 1 /\ oi = 1 /\ polls = 0 /\ confirmed = {} /\ putMissing = {} /\ execs = 0
+        /\ di = 1 /\ oi = 1 /\ polls = 0 /\ confirmed = {} /\ putMissing = {}
         /\ taskDone = FALSE /\ faults = 0
 
 \* a replication task is created; pre: the remote already holds the tag (and therefore its blobs)
@@ -48,7 +49,7 @@ NewTask(ds, o, pre) ==
   /\ pc = "none"
   /\ pc' = "idle" /\ deps' = ds /\ no' = o
   /\ remoteTag' = pre /\ remoteBlobs' = IF pre THEN Range(ds) ELSE {}
-  /\ UNCHANGED <<di, oi, polls, confirmed, putMissing, execs, taskDone, faults>>
+  /\ UNCHANGED <<di, oi, polls, confirmed, putMissing, taskDone, faults>>
 
 world == <<remoteTag, remoteBlobs, deps, no>>
 
@@ -56,7 +57,7 @@ world == <<remoteTag, remoteBlobs, deps, no>>
 Exec ==
   /\ pc = "idle" /\ ~taskDone
   /\ pc' = "has" /\ di' = 1 /\ oi' = 1 /\ polls' = 0 /\ confirmed' = {}
-  /\ UNCHANGED <<world, putMissing, execs, taskDone, faults>>
+  /\ UNCHANGED <<world, putMissing, taskDone, faults>>
 
 \* HEAD /tags/<tag>: 200 iff the remote holds the tag; every other answer (incl. errors) means "go on"
 Has(r) ==
@@ -64,18 +65,18 @@ Has(r) ==
   /\ r = 200 => remoteTag
   /\ r = 404 => ~remoteTag
   /\ pc' = IF r = 200 THEN "ok" ELSE "origin"
-  /\ UNCHANGED <<world, di, oi, polls, confirmed, putMissing, execs, taskDone>>
+  /\ UNCHANGED <<world, di, oi, polls, confirmed, putMissing, taskDone>>
 
 AfterOrigin == IF deps = <<>> THEN "put" ELSE IF no = 0 THEN "fail" ELSE "rep"
 Origin(r) ==
   /\ pc = "origin"
   /\ pc' = IF r = 200 THEN AfterOrigin ELSE "fail"
-  /\ UNCHANGED <<world, di, oi, polls, confirmed, putMissing, execs, taskDone>>
+  /\ UNCHANGED <<world, di, oi, polls, confirmed, putMissing, taskDone>>
 
 \* POST /namespace/<tag>/blobs/<d>/remote/<dns> to local origin o
 Rep(d, o, r) ==
   /\ pc = "rep" /\ di <= Len(deps) /\ d = deps[di] /\ o = oi /\ oi <= no
-  /\ UNCHANGED <<remoteTag, deps, no, putMissing, execs, taskDone>>
+  /\ UNCHANGED <<remoteTag, deps, no, putMissing, taskDone>>
   /\ CASE r = 200 -> /\ remoteBlobs' = remoteBlobs \cup {d}
                      /\ confirmed' = confirmed \cup {d}
                      /\ di' = di + 1
@@ -84,10 +85,11 @@ Rep(d, o, r) ==
                      /\ pc' = IF di = Len(deps) THEN "put" ELSE "rep"
        [] r = 202 -> /\ polls' = polls + 1
                      /\ UNCHANGED <<remoteBlobs, confirmed, di, oi, pc>>
-       [] r \in Err5xx \cup {NetErr} ->
+       [] r \in Err5xx \cup {NetErr, Lost} ->
                      /\ IF oi < no THEN oi' = oi + 1 /\ polls' = 0 /\ pc' = pc
                                    ELSE oi' = oi /\ polls' = polls /\ pc' = "fail"
-                     /\ UNCHANGED <<remoteBlobs, confirmed, di>>
+                     /\ remoteBlobs' = IF r = Lost THEN remoteBlobs \cup {d} ELSE remoteBlobs
+                     /\ UNCHANGED <<confirmed, di>>
        [] r \in Err4xx -> /\ pc' = "fail"
                           /\ UNCHANGED <<remoteBlobs, confirmed, di, oi, polls>>
 
@@ -95,25 +97,25 @@ Rep(d, o, r) ==
 Put(r) ==
   /\ pc \in {"rep", "put"}
   /\ putMissing' = DepSet \ confirmed
-  /\ remoteTag' = (remoteTag \/ r = 200)
+  /\ remoteTag' = (remoteTag \/ r \in {200, Lost})
   /\ pc' = IF pc = "put" THEN (IF r = 200 THEN "ok" ELSE "fail") ELSE pc
-  /\ UNCHANGED <<remoteBlobs, deps, no, di, oi, polls, confirmed, execs, taskDone>>
+  /\ UNCHANGED <<remoteBlobs, deps, no, di, oi, polls, confirmed, taskDone>>
 
 ExecEnd(res) ==
   /\ \/ pc = "ok" /\ res = "ok"
      \/ pc = "fail" /\ res = "err"
-  /\ pc' = "idle" /\ execs' = execs + 1 /\ taskDone' = (res = "ok")
+  /\ pc' = "idle" /\ taskDone' = (res = "ok")
   /\ UNCHANGED <<world, di, oi, polls, confirmed, putMissing, faults>>
 
 \* the retry loop ends (the task is removed) only after a successful execution
 Stop ==
   /\ pc = "idle" /\ taskDone
   /\ pc' = "stopped"
-  /\ UNCHANGED <<world, di, oi, polls, confirmed, putMissing, execs, taskDone, faults>>
+  /\ UNCHANGED <<world, di, oi, polls, confirmed, putMissing, taskDone, faults>>
 
 \* model-checking environment: natural answers are free, everything else is a fault
 Natural(kind) == IF kind = "has" THEN (IF remoteTag THEN 200 ELSE 404) ELSE 200
-Answers(kind) == {Natural(kind)} \cup (IF faults < MaxFaults THEN {202, 403, 503, NetErr} ELSE {})
+Answers(kind) == {Natural(kind)} \cup (IF faults < MaxFaults THEN {202, 403, 503, NetErr, Lost} ELSE {})
 Env(kind, r) == faults' = IF r = Natural(kind) THEN faults ELSE faults + 1
 Next == \/ \E ds \in DepSeqs, o \in 0..MaxOrigins, pre \in BOOLEAN : NewTask(ds, o, pre)
         \/ Exec
